@@ -27,6 +27,64 @@ def seq_terms(e: ast.AST) -> List[str]:
     return [norm(e)]
 
 
+def _te_predicate(repo, c):
+    """The condition on the request headers under which emission `c` happens, as a callable on a
+    sample header list: (1) an enclosing `for ... in self.scope['headers']` whose body reaches c,
+    (2) a guard calling a zero-argument helper method, (3) a guard expression over the headers."""
+    import copy
+
+    from ..astq import enclosing_func
+    from ..pred import eval_function
+
+    def env(sample):
+        return {"self.scope": {"headers": sample, "http_version": "2"}, "TRAILERS_VERSIONS": {"2", "3"}}
+
+    loops = [a for a in ancestors(c) if isinstance(a, ast.For) and norm(a.iter) == "self.scope['headers']"]
+    if loops:
+        loop = loops[0]
+        path = [c] + list(ancestors(c))
+        path = path[: [i for i, a in enumerate(path) if a is loop][0] + 1]
+
+        def rebuild(node):
+            # keep only the control skeleton that leads to c; the emission becomes `return True`
+            if isinstance(node, ast.If):
+                new = ast.If(test=node.test, body=block(node.body), orelse=block(node.orelse))
+                return new
+            if isinstance(node, ast.For):
+                return ast.For(target=node.target, iter=node.iter, body=block(node.body), orelse=[])
+            return None
+
+        def block(stmts):
+            out = []
+            for st in stmts:
+                if any(st is a for a in path):
+                    if isinstance(st, (ast.If, ast.For)):
+                        out.append(rebuild(st))
+                    else:
+                        out.append(ast.Return(value=ast.Constant(value=True)))
+                        return out
+                elif isinstance(st, ast.If) and not any(isinstance(x, (ast.Await, ast.Call)) for x in ast.walk(st) if not isinstance(x, ast.If)):
+                    out.append(st)
+                elif isinstance(st, (ast.Break, ast.Continue)):
+                    out.append(st)
+            return out or [ast.Pass()]
+
+        fn = ast.FunctionDef(name="p", args=ast.arguments(posonlyargs=[], args=[], kwonlyargs=[], kw_defaults=[], defaults=[]), body=[rebuild(loop), ast.Return(value=ast.Constant(value=False))], decorator_list=[])
+        ast.fix_missing_locations(fn)
+        return lambda sample: eval_function(fn, env(sample))
+    func = enclosing_func(c)
+    cls = [a for a in ancestors(c) if isinstance(a, ast.ClassDef)]
+    for test, pol in guards(c):
+        for sub in ast.walk(test):
+            if isinstance(sub, ast.Call) and isinstance(sub.func, ast.Attribute) and norm(sub.func.value) == "self" and not sub.args and not sub.keywords and cls:
+                meth = [m for m in cls[0].body if isinstance(m, (ast.FunctionDef, ast.AsyncFunctionDef)) and m.name == sub.func.attr]
+                if meth and "headers" in norm(meth[0]) and pol:
+                    return lambda sample, m=meth[0]: eval_function(m, env(sample))
+        if "self.scope['headers']" in norm(test):
+            return lambda sample, t=test, p=pol: bool(eval_expr(t, env(sample))) == p
+    return None
+
+
 def run(ctx: Ctx) -> None:
     repo = ctx.repo
     ctx.rule("C02.R2", "suppress_body(method, status) is true exactly for HEAD, 1xx, 204 and 304 (table over status 100..599 x {HEAD, GET, POST})", floor=1)
@@ -140,12 +198,25 @@ def run(ctx: Ctx) -> None:
     ctx.check("C02.R5", "protocol.http_stream:TRAILERS_VERSIONS", "== {'2','3'}", tv == {"2", "3"}, f"TRAILERS_VERSIONS = {tv!r}: trailers must never be attempted on HTTP/1.x", None)
     trs = [c for c in calls(aps) if call_name(c) == "Trailers"]
     tresp = [c for c in calls(aps) if call_name(c) == "Response" and norm(kwarg(c, "status_code")) == "200"]
+    samples = [[], [(b"te", b"trailers")], [(b"te", b"gzip")], [(b"x", b"trailers")], [(b"a", b"b"), (b"te", b"trailers")], [(b"te", b"gzip"), (b"trailers", b"te")], [(b"te", b"trailers"), (b"te", b"gzip")]]
     for c in trs + tresp:
         ga = guard_atoms(c)
-        ok = {("self.scope['http_version'] in TRAILERS_VERSIONS", True), ("name == b'te'", True), ("value == b'trailers'", True), ("message['type'] == 'http.response.trailers'", True)} <= ga
-        loop = [a for a in ancestors(c) if isinstance(a, ast.For)]
-        ok = ok and len(loop) >= 1 and norm(loop[0].iter) == "self.scope['headers']"
-        ctx.check("C02.R5", w, f"{call_name(c)} for trailers guarded by version and te: trailers", ok, f"emitted under {sorted(ga)}", c)
+        ok = {("self.scope['http_version'] in TRAILERS_VERSIONS", True), ("message['type'] == 'http.response.trailers'", True)} <= ga
+        pred = _te_predicate(repo, c)
+        bad = None
+        if pred is None:
+            ok = False
+        else:
+            for smp in samples:
+                try:
+                    got = bool(pred(smp))
+                except Exception as error:  # Unknown / unsupported construct
+                    got = f"not evaluable ({error})"
+                if got != any(n == b"te" and v == b"trailers" for n, v in smp):
+                    bad = (smp, got)
+                    ok = False
+                    break
+        ctx.check("C02.R5", w, f"{call_name(c)} for trailers guarded by version and te: trailers", ok, f"emitted under {sorted(ga)}" + (f"; the header test gives {bad[1]} for request headers {bad[0]}" if bad else ("" if pred else "; no test of the request's te header found")), c)
     ctx.need(len(trs) == 1 and len(tresp) == 1, f"{w}: expected one Trailers and one trailer-only Response emission")
     ext = [n for n in walk_local(repo.func("protocol.http_stream", "HTTPStream.handle")) if isinstance(n, ast.Assign) and "http.response.trailers" in norm(n.targets[0])]
     ok = len(ext) == 1 and ("event.http_version in TRAILERS_VERSIONS", True) in guard_atoms(ext[0])
@@ -182,7 +253,7 @@ def run(ctx: Ctx) -> None:
     # R8
     from . import c09
 
-    c09.run(Alias(ctx, "C02.R8", "HTTP/2 serialisation: DATA payload/length provenance, unblock->wake-up, END_STREAM once after completion, window updates reach the send task (C09.R1/R3/R5/R6/R9)", only={"C09.R1", "C09.R3", "C09.R5", "C09.R6", "C09.R9"}))
+    c09.run(Alias(ctx, "C02.R8", "HTTP/2 serialisation: DATA payload/length provenance, unblock->wake-up, END_STREAM once after completion, window updates reach the send task; the send task decides to park a stream from the state of its buffer at that moment, not from an observation made before an await (C09.R1/R2/R3/R5/R6/R9)", only={"C09.R1", "C09.R2", "C09.R3", "C09.R5", "C09.R6", "C09.R9"}))
 
     from . import c08, c19
 
